@@ -141,6 +141,18 @@ def main():
         t0[0] = now
 
     ck = Check("C18")
+    # a broken kernel fails in thousands of states: full detail for the first 20 violations of each (kind, key),
+    # the rest are counted (violation_summary)
+    tally = {}
+    report = ck.violation
+
+    def violation(kind, detail, key=None):
+        k = "%s %s" % (kind, json.dumps(key, sort_keys=True))
+        tally[k] = tally.get(k, 0) + 1
+        if tally[k] <= 20:
+            report(kind, detail, key=key)
+
+    ck.violation = violation
     tier = ck.tier
     rnd = random.Random(ck.seed)
     ck.rule = (
@@ -219,7 +231,9 @@ def main():
                              key={"site": "parental_pair_markov_blankets", "ped": name})
 
     # one extra read layout per pedigree (the model's read set is a bag: same kernels)
+    # (pedigrees without any read keep the model-order layout only)
     layouts = {name: make_layout(peds[name], rnd) for name in sorted(table)}
+    has_reads = {name: any(len(rs) > 0 for rs in peds[name]["reads"]) for name in table}
     ck.note("read_layouts", {name: layouts[name] for name in sorted(table)})
 
     def judge_alleles(name, s, rows, layout, cache, gib=None, mhk=None):
@@ -298,7 +312,7 @@ def main():
     # ---- spec -> code: allele kernels (compiled), model-order layout and the permuted / padded layout ------
     tasks, owners = [], []
     for name, sts in states.items():
-        for layout in (None, layouts[name]):
+        for layout in ((None, layouts[name]) if has_reads[name] else (None,)):
             for c in range(0, len(sts), 60):
                 tasks.append({"op": "allele_kernels", "ped": peds[name], "states": sts[c:c + 60], "layout": layout})
                 owners.append((name, sts[c:c + 60], layout))
@@ -322,11 +336,14 @@ def main():
     phase("allele-kernels-jit")
     # ---- spec -> code: the kernels with ONE likelihood cache shared by all individuals, moves and states ----
     # (interpreted; the mixed-ploidy pedigrees in their different sample orders)
-    mixed = [name for name in sorted(table) if len(set(peds[name]["ploidy"])) > 1]
+    mixed = [name for name in sorted(table)
+             if len(set(peds[name]["ploidy"])) > 1 and any(r["n"] > 0 for rs in peds[name]["reads"] for r in rs)]
     tasks, owners = [], []
     for name in mixed:
         sts = list(states[name])
         rnd.shuffle(sts)
+        if tier == "quick":
+            sts = sts[:256]
         for num, c in enumerate(range(0, len(sts), 64)):
             layout = layouts[name] if num % 2 else None
             tasks.append({"op": "cached_walk", "ped": peds[name], "states": sts[c:c + 64], "layout": layout, "flip": num // 2})
@@ -392,7 +409,7 @@ def main():
         for num, c in enumerate(range(0, len(sts), 40)):
             tasks.append({"op": "swap_py", "ped": ped, "states": sts[c:c + 40]})
             owners.append((name, sts[c:c + 40], None))
-            if tier != "quick" or num % 3 == 0:
+            if has_reads[name] and (tier != "quick" or num % 3 == 0):
                 tasks.append({"op": "swap_py", "ped": ped, "states": sts[c:c + 40], "layout": layouts[name]})
                 owners.append((name, sts[c:c + 40], layouts[name]))
     res = run_pool(ck, tasks, "py", "pair_allele_swap_step") if tasks else []
@@ -584,13 +601,9 @@ def main():
         "compiled only on states where the draw does not matter (numba compiles the same source)",
     ]
     ck.note("phase_wall_s", phases)
-    summary = {}
-    for v in ck.violations:
-        k = "%s %s" % (v["kind"], json.dumps(v.get("key"), sort_keys=True))
-        summary[k] = summary.get(k, 0) + 1
-    if summary:
-        ck.note("violation_summary", summary)
-        for k, n in sorted(summary.items()):
+    if tally:
+        ck.note("violation_summary", tally)
+        for k, n in sorted(tally.items()):
             print("  %6d x %s" % (n, k), flush=True)
     ck.finish()
 
